@@ -48,7 +48,7 @@ func (s Stack) Apply(opt *Option, profile string) (string, error) {
 		// Local copy: the package-level list must not keep the X rule for later directives
 		clean = slices.Insert(slices.Clone(regCleanStakedRules), 0,
 			util.ToRegexRepl([]string{
-				`(?m)^.*(|P|p)(|U|u)(|i)x,.*$`, ``, // Remove X transition rules
+				`(?m)^.*[\t ][rwmlk]*(|P|p|C|c)(|U|u)(|i)x[\t ]*(->[^,]*)?,.*$`, ``, // Remove X transition rules
 			})...,
 		)
 	} else {
